@@ -136,9 +136,10 @@ class _InlineFunction(XPathFunction):
 
         context = copy(context)
         if context is not None:
-            context.variables = context.variables.copy()
-            if self.variables:
-                context.variables.update(self.variables)
+            if self.variables is not None:
+                context.variables = self.variables.copy()  # the closure, not the caller's scope
+            else:
+                context.variables = context.variables.copy()
 
         if self.varnames is None:
             self.varnames = []
@@ -166,8 +167,6 @@ class _InlineFunction(XPathFunction):
                 raise self.error('XPTY0004', msg.format(len(self.varnames), len(args)))
 
             partial_function = False
-            if self.variables is None:
-                self.variables = {}
 
             for varname, sequence_type, value in zip(self.varnames, self.sequence_types, args):
                 if isinstance(value, XPathToken) and value.symbol == '?':
